@@ -60,7 +60,9 @@ def levelSpan : Nat := 10000
 
 def Shard.init (cap kmerge : Nat) : Shard :=
   { cap, kmerge, mem := [], passives := [], jobs := [], live := [], nextL0 := 0,
-    walOpen := 0, walCount := 0, walOrphan := false, segs := [], index := [], wal := [] }
+    walOpen := 0, walCount := 0, walOrphan := false, segs := [], index := [],
+    -- the WAL task creates `wal-00000.log` when it starts
+    wal := [(0, [])] }
 
 /-! ## WAL writer -/
 
